@@ -1,6 +1,7 @@
 //! Property oracles evaluated on the REAL crate's replies (independent of the model):
 //! a failure here is a concrete input on which the property fails on the real code.
 
+use crate::expr::*;
 use crate::gen::WELL_KNOWN;
 use crate::util::*;
 use std::collections::{HashMap, HashSet};
@@ -28,6 +29,7 @@ pub fn run(prop: &str, req: &str, rep: &str, outfile: &str) {
     match prop {
         "C17" => oracle_c17(&reqs, &reps, &mut fails, &mut checked, &mut nontrivial),
         "C18" => oracle_c18(&reqs, &reps, &mut fails, &mut checked, &mut nontrivial),
+        "C13" => oracle_c13(&reqs, &reps, &mut fails, &mut checked, &mut nontrivial),
         _ => {
             eprintln!("no oracle for {prop}");
             std::process::exit(2);
@@ -220,6 +222,41 @@ fn oracle_c18(
                 &reps[i],
                 format!("not monotonic: an earlier time ({}) returned a later result", reqs[w[0].2]),
             );
+        }
+    }
+}
+
+// ------------------------------------------------------------------------------------
+
+fn oracle_c13(
+    reqs: &[String],
+    reps: &[String],
+    fails: &mut Vec<Failure>,
+    checked: &mut u64,
+    nontrivial: &mut HashSet<String>,
+) {
+    for (i, (q, r)) in reqs.iter().zip(reps.iter()).enumerate() {
+        let t: Vec<&str> = q.split(' ').collect();
+        if t[0] != "eval" {
+            continue;
+        }
+        *checked += 1;
+        let (row, n) = parse_row(&t[1..]).unwrap();
+        let (e, _) = E::parse(&t[1 + n..]).unwrap();
+        match e.ref_eval(&row) {
+            None => {
+                // the row lacks a referenced column: outside the property (documented panic)
+            }
+            Some(expect) => {
+                if e.depth() >= 1 {
+                    nontrivial.insert(t[1 + n..].join(" "));
+                }
+                if r == "panic" {
+                    fail(fails, i, q, r, "evaluation (or construction) panicked".into());
+                } else if *r != expect.tok() {
+                    fail(fails, i, q, r, format!("documented semantics give {}", expect.tok()));
+                }
+            }
         }
     }
 }
